@@ -564,14 +564,13 @@ Definition align (v : senv) (chs : list Z) (at_rest : bool) : QM unit :=
                                | Some c => (n, ch_duration c at_rest)
                                | None => (n, 0) end) chs in
   let tf := fold_left (fun a x => Z.max a (snd x)) last_ts 0 in
-  mapM_ (fun x : Z * Z =>
-           let '(n, t) := x in
-           let delta := tf - t in
+  mapM_ (fun n : Z =>
+           c <- declared n ;;
+           let delta := tf - ch_duration c false in
            if delta >? 0 then
-             c <- declared n ;;
              d <- lift (adjust_duration (ch_cfg c) delta) ;;
              delay_ v d n false
-           else ret tt) last_ts ;;;
+           else ret tt) chs ;;;
   log_call (OAlign chs at_rest).
 
 (** Sequence.measure *)
